@@ -175,8 +175,11 @@ func (d *Decimal) setString(c *Context, s string) (Condition, error) {
 		// The exponent is outside of the package limits and was not stored.
 		// Do not leave a finite value that looks valid behind.
 		d.Form = NaN
+		return c.goError(res)
 	}
-	return c.goError(res)
+	// Conditions of an accepted string are reported, and trapped, by the
+	// caller together with those of its rounding.
+	return res, nil
 }
 
 // lowerASCII returns s with the ASCII upper case letters mapped to lower case
@@ -222,6 +225,8 @@ func (c *Context) NewFromString(s string) (*Decimal, Condition, error) {
 func (c *Context) SetString(d *Decimal, s string) (*Decimal, Condition, error) {
 	res, err := d.setString(c, s)
 	if err != nil {
+		// No partial value: not the digits and sign parsed so far either.
+		d.Set(decimalNaN)
 		return nil, 0, err
 	}
 	res |= c.round(d, d)
